@@ -94,8 +94,11 @@ open Sentinel.Gen.Access
 def excusedReads : List (Cls × String) := resolve classNames knownReads
 def excusedPlain : List (Nat × String) := resolve atomicFields knownPlainReads
 
-/-- **Every pair of conflicting live accesses of one object class holds a common package-level mutex, at least
-    one side in write mode** (outside the listed known reads).  Kernel-evaluated on the regenerated table. -/
+/-- **Every pair of conflicting live accesses of one object class holds a common mutex, at least one side in
+    write mode** (outside the listed known reads).  Object classes: package-level variables and the containers
+    reached from them (protected by package-level mutexes), and the data fields of structs that carry a mutex field,
+    accessed through the method receiver (protected by that receiver's own mutex field, so "common" means the same
+    object's mutex).  Kernel-evaluated on the regenerated table. -/
 theorem table_disciplined : Disciplined excusedReads accesses :=
   disciplinedB_sound _ _ (by decide +kernel)
 
